@@ -95,7 +95,7 @@ def generate(seed, tier="quick"):
             sid_n += 1
             eid_n += 1
             sites[f"s{sid_n}"] = {"op": rng.choice(["eq", "in", "le"]), "place": "direct", "arg": None, "prev": None}
-            bc = ["badcopy", rng.randint(0, 5)]
+            bc = [rng.choice(["badcopy", "badcopy", "badlist"]), rng.randint(0, 5)]
             # bare, or inside a container type that the session has (probably) already copied successfully
             bc = rng.choice([bc, ["list", [bc]], ["list", [["int", 1], bc]], ["tuple", [["int", 1], bc]], ["dict", [[["str", "k"], bc]]], ["dc", "DC", [["a", bc]]]])
             events.append({"t": "bind", "var": f"x{var_n}", "val": bc})
